@@ -855,6 +855,7 @@ func c06(c *Ctx) {
 	if thorough {
 		workers = 2 // 16 shards run side by side
 	}
+	var leaked atomic.Int64 // goroutines abandoned after a timeout and still running; they may be spinning
 	runOne := func(j job, e int, budget time.Duration, ops *[]c06Op) (msg string, tree, timedOut bool) {
 		type r2 struct {
 			msg  string
@@ -873,12 +874,17 @@ func c06(c *Ctx) {
 			}
 			return x.msg, x.tree, false
 		case <-time.After(budget):
+			// abandoned, not stopped: it counts as leaked until (if ever) it finishes
+			leaked.Add(1)
+			go func() {
+				<-done
+				leaked.Add(-1)
+			}()
 			return "", false, true
 		}
 	}
 	var opsLeft atomic.Int64 // tie lines are sampled: at most this many per shard
 	opsLeft.Store(60000)
-	var leaked atomic.Int64 // goroutines abandoned after a timeout; they may be spinning
 	results := parallelMap(len(jobs), workers, func(i int) res {
 		j := jobs[i]
 		var out res
@@ -891,12 +897,22 @@ func c06(c *Ctx) {
 				continue
 			}
 			if leaked.Load() >= 6 {
-				// too many abandoned (possibly spinning) goroutines: schedule no more in-process work
-				out.skipped = true
-				break
+				// too many abandoned goroutines are still running.  On a loaded machine they finish
+				// eventually (the counter drops again); goroutines that spin never do: wait a while,
+				// then schedule no more in-process work
+				for w := 0; w < 120 && leaked.Load() >= 6; w++ {
+					time.Sleep(time.Second)
+				}
+				if leaked.Load() >= 6 {
+					out.skipped = true
+					break
+				}
 			}
 			t0 := time.Now()
-			budget := 5*time.Second + 2*time.Duration(len(j.src))*time.Millisecond
+			budget := 10*time.Second + 4*time.Duration(len(j.src))*time.Millisecond
+			if thorough {
+				budget *= 3 // 16 shards share the machine
+			}
 			var opsp *[]c06Op
 			if opsLeft.Load() > 0 {
 				opsp = &out.ops
@@ -906,7 +922,6 @@ func c06(c *Ctx) {
 			opsLeft.Add(-int64(len(out.ops) - before))
 			if to {
 				// possibly only machine load: re-run in a child process after the parallel phase
-				leaked.Add(1)
 				out.suspects = append(out.suspects, e)
 			} else if msg != "" {
 				out.fails = append(out.fails, Failure{Witness: fmt.Sprintf("%s %s %s", c06Entries[e], j.o, hx(j.src)), What: msg})
@@ -969,7 +984,7 @@ func c06(c *Ctx) {
 	slowKinds := map[string]time.Duration{}
 	for i, r := range results {
 		if r.skipped {
-			c.Hist["skipped-after-6-timeouts"]++
+			c.Hist["skipped-while-6-abandoned-goroutines-kept-running"]++
 		}
 		slowKinds[jobs[i].kind] += r.slow
 		j := jobs[i]
